@@ -397,4 +397,46 @@ theorem atomicSave_complete (ops : List FileOp) (h : AtomicSave ops = true) (new
     · exact h3 _ _ _ _ _ _ rfl
     · exact absurd h (by decide)
 
+/-! ### text mode (universal newlines) -/
+
+theorem readText_cons (c : Nat) (cs : Str) (hc : c ≠ 13) : readText (c :: cs) = c :: readText cs := by
+  rw [readText.eq_def]
+  split
+  · simp_all
+  · simp_all
+  · simp_all
+  · simp_all
+
+theorem readText_id (s : Str) (h : ∀ c ∈ s, c ≠ 13) : readText s = s := by
+  induction s with
+  | nil => rfl
+  | cons c cs ih =>
+    rw [readText_cons c cs (h c (by simp)), ih (fun x hx => h x (by simp [hx]))]
+
+theorem joinLines_noCR (ls : List Str) (h : ∀ l ∈ ls, ∀ c ∈ l, c ≠ 13) : ∀ c ∈ joinLines ls, c ≠ 13 := by
+  induction ls with
+  | nil => intro c hc; simp [joinLines] at hc
+  | cons l rest ih =>
+    cases rest with
+    | nil => intro c hc; simp [joinLines] at hc; exact h l (by simp) c hc
+    | cons l2 rest2 =>
+      intro c hc
+      simp only [joinLines, List.mem_append, List.mem_cons] at hc
+      rcases hc with hc | hc | hc
+      · exact h l (by simp) c hc
+      · omega
+      · exact ih (fun l' hl' => h l' (by simp [hl'])) c hc
+
+theorem render_noCR (kvs : List (Str × Str)) (h : NoCR kvs) : ∀ c ∈ render kvs, c ≠ 13 := by
+  unfold render
+  apply joinLines_noCR
+  intro l hl c hc
+  simp only [List.mem_map] at hl
+  obtain ⟨kv, hkv, rfl⟩ := hl
+  simp only [List.mem_append, List.mem_cons] at hc
+  rcases hc with hc | hc | hc
+  · exact (h kv hkv).1 c hc
+  · omega
+  · exact (h kv hkv).2 c hc
+
 end Yow.Config
